@@ -142,7 +142,7 @@ def run_shard(shard, tier, seed):
     items = []
     if shard[0] == 'cells':
         for cell in cl:
-            for b, cls in x86space.strings_for_cell(cell, tier, seed, prefixes=x86space.STD_PREFIXES, sibs=x86space.SIB_QUICK[:3] if tier == 'quick' else x86space.SIB_QUICK + x86space.SIB_ALL64[::5],
+            for b, cls in x86space.strings_for_cell(cell, tier, seed, prefixes=x86space.STD_PREFIXES, sibs=x86space.SIB_QUICK[:4] if tier == 'quick' else x86space.SIB_QUICK + x86space.SIB_ALL64[::5],
                                                     nfill=0 if tier == 'quick' else 2):
                 items.append((b, cls))
     else:
